@@ -291,6 +291,58 @@ theorem C07_class_roundtrip_eq_partial (T : Tab) (hT : TabOk T) (fmt : Fmt) (p :
     · rfl
   simp [classEqB, eqName_of_optLower (optLower_case_self hT fmt p.host), eqName_of_optLower (optLower_case_self hT fmt p.ns), hc]
 
+/-- **The documented limits of string keys are exact.**  For every string `s` (any characters) printed as a key value and
+    read back by `_kbstr_to_cimval` (with the nested parser given enough fuel): it comes back as a reference exactly when
+    `s` itself is an instance URI, as a datetime exactly when it is not but `CIMDateTime` accepts it, and as the string `s`
+    otherwise — the three cases are exhaustive (`C07_fromUri_total`) and exclusive. -/
+theorem C07_string_value_classification (T : Tab) (s : Str) (m : Nat) (hm : s.length < m) :
+    (∀ q, fromUri T s = .ok q → kbVal T (fromUriF T m) (quote (escape s)) = .ok (.ref q)) ∧
+    (NotUri T s → dtAccepts s = true → kbVal T (fromUriF T m) (quote (escape s)) = .ok (.dt s)) ∧
+    (NotUri T s → dtAccepts s = false → kbVal T (fromUriF T m) (quote (escape s)) = .ok (.str s)) ∧
+    ((∃ q, fromUri T s = .ok q) ∨ NotUri T s) := by
+  have hf := fromUri_eq_fuel T s hm
+  refine ⟨?_, ?_, ?_, ?_⟩
+  · intro q hq
+    exact kbVal_quoted_ok (by rw [unescape_escape, hf, hq])
+  · intro hn hd
+    rw [kbVal_quoted_ve (by rw [unescape_escape, hf]; exact hn), unescape_escape, hd]; rfl
+  · intro hn hd
+    rw [kbVal_quoted_ve (by rw [unescape_escape, hf]; exact hn), unescape_escape, hd]; rfl
+  · cases h : fromUri T s with
+    | ok q => exact Or.inl ⟨q, rfl⟩
+    | error e =>
+      right
+      have := fromUriF_total T (s.length + 1) s (by omega)
+      unfold fromUri at h
+      rw [h] at this
+      unfold NotUri fromUri
+      rw [h]; simp [OnlyValueError] at this; rw [this]
+
+/-- **Integer literals are exclusive.**  A text that `_integerValue_to_int` accepts (binary, octal, decimal or hex) is
+    never accepted by `_realValue_to_float` nor by `CIMDateTime`; so, for unquoted key values, the position of the integer
+    test relative to the real and datetime tests in `_kbstr_to_cimval` cannot change a result. (Real vs. datetime: K only.) -/
+theorem C07_integer_literal_is_exclusive (s : Str) (i : Int) (h : intLit s = some i) :
+    realLit s = false ∧ dtAccepts s = false :=
+  intLit_exclusive h
+
+example : intLit "-0x1F".toList = some (-31) ∧ intLit "101b".toList = some 5 ∧ intLit "017".toList = some 15 := by decide +kernel
+
+/-- **The unquoted value classes are pairwise disjoint.**  Integer literals, real literals and datetime texts (as
+    `_integerValue_to_int`, `_realValue_to_float`, `CIMDateTime` accept them) never overlap: the order of the three tests at
+    the end of `_kbstr_to_cimval` is immaterial for every input. -/
+theorem C07_unquoted_literals_are_exclusive (s : Str) :
+    (∀ i, intLit s = some i → realLit s = false ∧ dtAccepts s = false) ∧
+    (dtAccepts s = true → realLit s = false ∧ intLit s = none) ∧
+    (realLit s = true → intLit s = none ∧ dtAccepts s = false) := by
+  refine ⟨fun i h => intLit_exclusive h, fun h => ⟨dt_not_real h, ?_⟩, fun h => ⟨?_, ?_⟩⟩
+  · cases e : intLit s with
+    | none => rfl
+    | some i => have := (intLit_exclusive e).2; rw [h] at this; cases this
+  · cases e : intLit s with
+    | none => rfl
+    | some i => have := (intLit_exclusive e).1; rw [h] at this; cases this
+  · apply Bool.eq_false_iff.mpr; intro hd; have := dt_not_real hd; rw [h] at this; cases this
+
 /-! ### spellings of a URI that pywbem never prints but its parser accepts -/
 
 /-- **The namespace type (URI scheme) is ignored.**  For every non-empty scheme of `[\w-]` characters (`https`,
